@@ -221,6 +221,14 @@ pub fn run(env: &Env, run: &Run) -> (Stats, Coverage) {
             check_input(env, p, s, st);
         }
     }));
+    for class in [crate::subject::Class::Identifier, crate::subject::Class::Freeform] {
+        let stairs = crate::props::rules::block_staircases(env, class);
+        st.merge(run_family(&stairs, |s, st| {
+            for p in Prof::ALL {
+                check_input(env, p, s, st);
+            }
+        }));
+    }
     st.sample(json!({"profile": "UsernameCaseMapped", "input": ["U+13A0"], "expected": "output must not contain U+AB70 (UNASSIGNED in 6.3.0)"}));
     st.sample(json!({"profile": "Nickname", "input": ["U+3131"], "expected": "Err: NFKC gives U+1100 (DISALLOWED old Hangul jamo), caught by re-validation"}));
     st.sample(json!({"profile": "OpaqueString", "input": ["U+0041", "U+030A"], "expected": "Ok(U+00C5); enforcing U+00C5 again returns it unchanged"}));
